@@ -45,6 +45,10 @@ EVAL_PROGRAMS = {
          ("components.schemas.*.properties.value.type", "string")], 0),
     "parameter-and-outer-rec-binder-used-inside-an-inner-rec": (
         {"main.oal": "let x = bool;\nlet t x = { 'o rec y { 'i rec z { 'px x, 'py? y, 'pz? z } } };\nres / on get -> <t int>;\n"}, [], 0),
+    # two parameters of one name: the use denotes the one that evaluation binds last - resolution and evaluation agree
+    "two-parameters-of-the-same-name": (
+        {"main.oal": "let f x x = { 'v x };\nres /a on get -> <f \"not a schema\" str>;\n"},
+        [("paths./a.get.responses.default.content.application/json.schema.properties.v.type", "string")], 0),
     "declaration-order-is-irrelevant": (
         {"main.oal": "res / on get -> <a>;\nlet a = { 'b b };\nlet b = int;\n"},
         [("paths./.get.responses.default.content.application/json.schema.properties.b.type", "integer")], 0),
